@@ -7,12 +7,22 @@ package actor
 
 import (
 	"context"
+	"errors"
+	"fmt"
+	"os"
+	"runtime"
+	"sort"
+	"strconv"
+	"strings"
 	"sync"
 	"sync/atomic"
 	"testing"
 	"time"
 
+	gerrors "github.com/tochemey/goakt/v4/errors"
+	"github.com/tochemey/goakt/v4/internal/commands"
 	"github.com/tochemey/goakt/v4/log"
+	"github.com/tochemey/goakt/v4/passivation"
 	"github.com/tochemey/goakt/v4/reentrancy"
 	"github.com/tochemey/goakt/v4/test/data/testpb"
 )
@@ -137,5 +147,1003 @@ func TestVerifC16WitnessStashOrder(t *testing.T) {
 	mu.Lock()
 	out := c16WitnessOut{Witness: "stash-order", Handled: append([]int32(nil), handled...)}
 	mu.Unlock()
+	w.put(out)
+}
+
+// ---------------------------------------------------------------------------------------------
+// Deterministic tie: generated op sequences on a REAL spawned actor whose turn is owned by the
+// harness goroutine (schedState held at Processing, so no dispatcher worker touches it). Every op
+// is one call of the real function the Coq model's op stands for; the observable state is recorded
+// after every step and compared with C16/Model.v (trace) by checks/C16.py. An oracle that knows
+// nothing of the model checks the property's clauses after every step.
+
+const (
+	c16OArrive = iota
+	c16OReply
+	c16OTimerFire
+	c16OCancel
+	c16OStop
+	c16OCancelInFlight
+	c16OReset
+	c16ORestart
+	c16ODispatch
+	c16OFinish
+	c16OCtl
+	c16ORequest
+	c16OThen
+)
+
+type c16Case struct {
+	Max int
+	Ops [][3]int
+}
+
+type c16Obs struct {
+	Skip     bool    `json:"skip,omitempty"`
+	Table    []int   `json:"t"`
+	InFlight int64   `json:"i"`
+	Blocking int64   `json:"b"`
+	Mbox     []int64 `json:"m"`
+	Stash    []int64 `json:"s"`
+	Handled  []int32 `json:"h"`
+	Ctls     int     `json:"c"`
+	Objs     []int64 `json:"o"`
+}
+
+type c16Complaint struct {
+	Step    int
+	Kind    string // calls | offturn | limit | isolation | counters | monotone | exactly-once | lost | tracked | release | order
+	Tainted bool   // cancelInFlightRequests had run inside an (emulated) preempted completeRequest since the last reset
+	Msg     string
+}
+
+type c16CaseOut struct {
+	Case       int
+	Obs        []c16Obs
+	Complaints []c16Complaint
+	EverHeld   []int32
+}
+
+func c16Gid() uint64 {
+	var buf [64]byte
+	n := runtime.Stack(buf[:], false)
+	f := strings.Fields(string(buf[:n]))
+	if len(f) < 2 {
+		return 0
+	}
+	id, _ := strconv.ParseUint(f[1], 10, 64)
+	return id
+}
+
+func c16ErrCode(completed bool, err error) int64 {
+	switch {
+	case !completed:
+		return 0
+	case err == nil:
+		return 1
+	case errors.Is(err, gerrors.ErrRequestTimeout):
+		return 3
+	case errors.Is(err, gerrors.ErrRequestCanceled):
+		return 4
+	default:
+		return 2
+	}
+}
+
+func c16RespKind(r *commands.AsyncResponse) int64 {
+	switch r.Error {
+	case "":
+		return 1
+	case gerrors.ErrRequestTimeout.Error():
+		return 3
+	case gerrors.ErrRequestCanceled.Error():
+		return 4
+	default:
+		return 2
+	}
+}
+
+type c16Req struct {
+	call      RequestCall
+	state     *requestState
+	calls     atomic.Int32
+	offTurn   atomic.Int32
+	armed     bool
+	fired     bool
+	stashMode bool
+	// oracle memory
+	wasCompleted bool
+	wasCode      int64
+	dropped      bool
+}
+
+type c16Mid struct {
+	state  *requestState
+	cb     func(any, error)
+	result any
+	err    error
+}
+
+type c16Driver struct {
+	ctx        context.Context
+	pid        *PID
+	target     *PID
+	gid        uint64
+	idx        map[string]int
+	reqs       []*c16Req
+	handled    []int32
+	nextu      int32
+	ctls       int
+	phase      int // 0 run, 1 stopping, 2 cancelled, 3 stopped
+	mid        *c16Mid
+	taint      bool
+	zeroed     bool // cancelInFlightRequests ran at least once (held messages may be stranded from then on)
+	step       int
+	complaints []c16Complaint
+	everHeld   map[int32]bool
+}
+
+func (d *c16Driver) complain(kind, format string, a ...any) {
+	if len(d.complaints) < 12 {
+		d.complaints = append(d.complaints, c16Complaint{Step: d.step, Kind: kind, Tainted: d.taint, Msg: fmt.Sprintf(format, a...)})
+	}
+}
+
+func c16WalkBox(mb Mailbox, code func(any) int64) []int64 {
+	out := []int64{}
+	u, ok := mb.(*UnboundedMailbox)
+	if !ok || u == nil {
+		return out
+	}
+	head := (*ReceiveContext)(atomic.LoadPointer(&u.head))
+	cur := (*ReceiveContext)(atomic.LoadPointer(&head.next))
+	for cur != nil {
+		out = append(out, code(cur.message))
+		cur = (*ReceiveContext)(atomic.LoadPointer(&cur.next))
+	}
+	return out
+}
+
+func (d *c16Driver) idOf(corr string) int {
+	if i, ok := d.idx[corr]; ok {
+		return i
+	}
+	if strings.HasPrefix(corr, "unk-") {
+		n, _ := strconv.Atoi(corr[4:])
+		return n
+	}
+	return 999999
+}
+
+func (d *c16Driver) msgCode(m any) int64 {
+	switch v := m.(type) {
+	case *testpb.TestCount:
+		return int64(v.GetValue())
+	case *commands.AsyncResponse:
+		return -(1 + int64(d.idOf(v.CorrelationID))*8 + c16RespKind(v))
+	default:
+		return 1 << 40
+	}
+}
+
+// liveStash: uncompleted StashNonReentrant requests present in requestStates
+func (d *c16Driver) liveInTable() (live, liveStash, stashEntries int) {
+	re := d.pid.reentrancy.Load()
+	for _, k := range re.requestStates.Keys() {
+		st, ok := re.requestStates.Get(k)
+		if !ok || st == nil {
+			continue
+		}
+		if st.mode == reentrancy.StashNonReentrant {
+			stashEntries++
+		}
+		st.mu.Lock()
+		c := st.completed
+		st.mu.Unlock()
+		if !c {
+			live++
+			if st.mode == reentrancy.StashNonReentrant {
+				liveStash++
+			}
+		}
+	}
+	return
+}
+
+func (d *c16Driver) observe() c16Obs {
+	re := d.pid.reentrancy.Load()
+	o := c16Obs{Table: []int{}, Handled: append([]int32{}, d.handled...), Ctls: d.ctls, Objs: []int64{}, Stash: []int64{}}
+	for _, k := range re.requestStates.Keys() {
+		o.Table = append(o.Table, d.idOf(k))
+	}
+	sort.Ints(o.Table)
+	o.InFlight = re.inFlightCount.Load()
+	o.Blocking = re.blockingCount.Load()
+	o.Mbox = c16WalkBox(d.pid.mailbox, d.msgCode)
+	if d.pid.stashState != nil && d.pid.stashState.box != nil {
+		o.Stash = c16WalkBox(d.pid.stashState.box, d.msgCode)
+	}
+	for _, r := range d.reqs {
+		st := r.state
+		st.mu.Lock()
+		var v int64
+		if st.completed {
+			v |= 1
+		}
+		v += 2 * c16ErrCode(st.completed, st.err)
+		if st.callback != nil {
+			v += 16
+		}
+		v += 32 * int64(r.calls.Load())
+		if st.cancelRequested {
+			v += 128
+		}
+		if st.stopTimeout != nil {
+			v += 256
+		}
+		st.mu.Unlock()
+		o.Objs = append(o.Objs, v)
+	}
+	return o
+}
+
+// the property's own clauses, evaluated on the real state after every step
+func (d *c16Driver) stepOracle(op [3]int, o *c16Obs) {
+	re := d.pid.reentrancy.Load()
+	inTable := map[int]bool{}
+	for _, k := range re.requestStates.Keys() {
+		inTable[d.idOf(k)] = true
+	}
+	for i, r := range d.reqs {
+		st := r.state
+		st.mu.Lock()
+		completed, code, cbset := st.completed, c16ErrCode(st.completed, st.err), st.callback != nil
+		st.mu.Unlock()
+		calls := r.calls.Load()
+		if calls > 1 {
+			d.complain("calls", "op %v: continuation of request %d invoked %d times", op, i, calls)
+		}
+		if r.offTurn.Load() > 0 {
+			d.complain("offturn", "op %v: continuation of request %d ran off the requester's turn", op, i)
+		}
+		if r.wasCompleted && (!completed || code != r.wasCode) {
+			d.complain("monotone", "op %v: request %d was completed with outcome %d, now completed=%v outcome %d", op, i, r.wasCode, completed, code)
+		}
+		r.wasCompleted, r.wasCode = completed, code
+		midHere := d.mid != nil && d.mid.state == st
+		if d.mid == nil {
+			want := int32(0)
+			if completed && cbset && !r.dropped {
+				want = 1
+			}
+			if calls != want {
+				d.complain("exactly-once", "op %v: request %d completed=%v continuation-registered=%v shutdown-discarded=%v but continuation ran %d times", op, i, completed, cbset, r.dropped, calls)
+			}
+		}
+		if !completed && !inTable[i] {
+			d.complain("tracked", "op %v: request %d is neither completed nor in requestStates (it can never complete)", op, i)
+		}
+		if completed && inTable[i] && !midHere {
+			d.complain("tracked", "op %v: request %d is completed but still in requestStates", op, i)
+		}
+	}
+	live, _, stashEntries := d.liveInTable()
+	if max := re.maxInFlight.Load(); max > 0 && int64(live) > max {
+		d.complain("limit", "op %v: %d uncompleted requests in flight, limit %d", op, live, max)
+	}
+	inf, blk := re.inFlightCount.Load(), re.blockingCount.Load()
+	if !d.taint {
+		if inf != int64(re.requestStates.Len()) || blk != int64(stashEntries) {
+			d.complain("counters", "op %v: inFlightCount=%d blockingCount=%d but requestStates has %d entries, %d of them StashNonReentrant", op, inf, blk, re.requestStates.Len(), stashEntries)
+		}
+	}
+	if inf < 0 || blk < 0 {
+		d.complain("counters", "op %v: negative counter inFlightCount=%d blockingCount=%d", op, inf, blk)
+	}
+	// no accepted ordinary message lost or duplicated
+	seen := map[int64]int{}
+	for _, h := range d.handled {
+		seen[int64(h)]++
+	}
+	for _, m := range append(c16WalkBox(d.pid.mailbox, d.msgCode), o.Stash...) {
+		if m >= 0 {
+			seen[m]++
+		}
+	}
+	for n := int64(0); n < int64(d.nextu); n++ {
+		if seen[n] != 1 {
+			d.complain("lost", "op %v: ordinary message %d accounted for %d times (handled+stash+mailbox)", op, n, seen[n])
+			break
+		}
+	}
+	for _, m := range o.Stash {
+		if m >= 0 {
+			d.everHeld[int32(m)] = true
+		} else {
+			d.complain("isolation", "op %v: a response envelope was stashed", op)
+		}
+	}
+	if !d.zeroed && !d.taint && blk == 0 && len(o.Stash) > 0 {
+		d.complain("release", "op %v: no blocking request left but %d messages still held", op, len(o.Stash))
+	}
+}
+
+func (d *c16Driver) apply(op [3]int, nextIsFinish bool) (skip bool) {
+	pid, ctx := d.pid, d.ctx
+	switch op[0] {
+	case c16OArrive:
+		if err := Tell(ctx, pid, &testpb.TestCount{Value: d.nextu}); err == nil {
+			d.nextu++
+		}
+	case c16OReply:
+		corr := "unk-" + strconv.Itoa(op[1])
+		if op[1] < len(d.reqs) {
+			corr = d.reqs[op[1]].state.id
+		}
+		resp := &commands.AsyncResponse{CorrelationID: corr}
+		switch op[2] {
+		case 1:
+			resp.Message = &testpb.Reply{Content: "ok"}
+		case 2:
+			resp.Error = "boom"
+		case 3:
+			resp.Error = gerrors.ErrRequestTimeout.Error()
+		default:
+			resp.Error = gerrors.ErrRequestCanceled.Error()
+		}
+		_ = d.target.Tell(ctx, pid, resp) // what actorSystem.tellAsyncResponse does
+	case c16OTimerFire:
+		if op[1] < len(d.reqs) {
+			r := d.reqs[op[1]]
+			if r.armed && !r.fired {
+				r.fired = true
+				// the body of the timeout goroutine in requestState.startTimeout
+				_ = r.state.requester.enqueueAsyncError(context.Background(), r.state.id, gerrors.ErrRequestTimeout)
+			}
+		}
+	case c16OCancel:
+		if op[1] < len(d.reqs) {
+			_ = d.reqs[op[1]].call.Cancel()
+		}
+	case c16OStop:
+		if d.phase == 0 {
+			pid.setState(stoppingState, true)
+			d.phase = 1
+		}
+	case c16OCancelInFlight:
+		type pre struct{ completed, cb bool }
+		before := make([]pre, len(d.reqs))
+		for i, r := range d.reqs {
+			r.state.mu.Lock()
+			before[i] = pre{r.state.completed, r.state.callback != nil}
+			r.state.mu.Unlock()
+		}
+		if d.mid != nil {
+			if _, ok := pid.reentrancy.Load().requestStates.Get(d.mid.state.id); ok {
+				d.taint = true
+			}
+		}
+		pid.cancelInFlightRequests(gerrors.ErrRequestCanceled)
+		d.zeroed = true
+		for i, r := range d.reqs {
+			r.state.mu.Lock()
+			if !before[i].completed && r.state.completed && before[i].cb {
+				r.dropped = true // documented: a shutdown cancellation completes the request without running its continuation
+			}
+			r.state.mu.Unlock()
+		}
+		if d.phase == 1 {
+			d.phase = 2
+		}
+	case c16OReset:
+		if d.phase == 2 {
+			pid.reentrancy.Load().reset()
+			d.phase = 3
+			d.taint = false
+		}
+	case c16ORestart:
+		if d.phase == 3 {
+			pid.setState(stoppingState, false)
+			d.phase = 0
+		}
+	case c16ODispatch:
+		if d.mid != nil {
+			return false
+		}
+		rc := pid.mailbox.Dequeue()
+		if rc == nil {
+			return false
+		}
+		resp, isResp := rc.Message().(*commands.AsyncResponse)
+		if nextIsFinish || !isResp {
+			// the real path, whole: enableReentrancyStash, stash / handler / completeRequest
+			pid.dispatchOne(rc, time.Now())
+			return nextIsFinish
+		}
+		// emulated preemption point inside completeRequest: Get + complete now, deregister + continuation at OFinish
+		re := pid.reentrancy.Load()
+		st, ok := re.requestStates.Get(strings.TrimSpace(resp.CorrelationID))
+		if !ok {
+			return false
+		}
+		var result any
+		var err error
+		if resp.Error != "" {
+			err = asyncErrorFromString(resp.Error)
+		} else {
+			result = resp.Message
+		}
+		if cb, won := st.complete(result, err); won {
+			d.mid = &c16Mid{state: st, cb: cb, result: result, err: err}
+		}
+	case c16OFinish:
+		if d.mid != nil {
+			m := d.mid
+			d.mid = nil
+			pid.deregisterRequestState(m.state)
+			if m.cb != nil {
+				m.cb(m.result, m.err)
+			}
+		}
+	case c16OCtl:
+		if d.mid != nil {
+			return false
+		}
+		var msg any = new(PausePassivation)
+		want := true
+		if pid.isStateSet(passivationPausedState) {
+			msg, want = new(ResumePassivation), false
+		}
+		rc := getContext()
+		rc.build(ctx, pid, pid, msg, true)
+		pid.dispatchOne(rc, time.Now())
+		if pid.isStateSet(passivationPausedState) == want {
+			d.ctls++
+		}
+	case c16ORequest:
+		if d.mid != nil {
+			return false
+		}
+		mode := reentrancy.AllowAll
+		if op[1] == 1 {
+			mode = reentrancy.StashNonReentrant
+		}
+		opts := []RequestOption{WithReentrancyMode(mode)}
+		if op[2] == 1 {
+			opts = append(opts, WithRequestTimeout(time.Hour))
+		}
+		call, err := pid.request(ctx, d.target, &testpb.TestCount{Value: int32(len(d.reqs))}, opts...)
+		if err == nil && call != nil {
+			st := call.(*requestHandle).state
+			d.idx[st.id] = len(d.reqs)
+			d.reqs = append(d.reqs, &c16Req{call: call, state: st, armed: op[2] == 1, stashMode: op[1] == 1})
+		}
+	case c16OThen:
+		if d.mid != nil || op[1] >= len(d.reqs) {
+			return false
+		}
+		r := d.reqs[op[1]]
+		r.call.Then(func(any, error) {
+			r.calls.Add(1)
+			if c16Gid() != d.gid {
+				r.offTurn.Add(1)
+			}
+		})
+	}
+	return false
+}
+
+func c16Hijack(t *testing.T, pid *PID) bool {
+	// wait until PostStart has been processed and the actor is parked, then take the turn ourselves
+	ok := c16WaitFor(t, "requester idle", func() bool {
+		return pid.schedState.Load() == dispatchIdle && pid.mailbox.IsEmpty() && pid.systemMailbox.IsEmpty()
+	})
+	if !ok {
+		return false
+	}
+	time.Sleep(time.Millisecond)
+	for i := 0; i < 10000; i++ {
+		if pid.schedState.TrySchedule() {
+			return pid.schedState.TakeForProcessing()
+		}
+		time.Sleep(100 * time.Microsecond)
+	}
+	return false
+}
+
+func TestVerifC16Ops(t *testing.T) {
+	cases := verifReadJSONL[c16Case](t, "c16_ops.jsonl")
+	w := newVerifWriter(t, "c16_ops_out.jsonl")
+	defer w.close()
+	sys, ctx := c16System(t, "c16-ops")
+	target := c16Spawn(t, sys, ctx, "swallow", func(*ReceiveContext) {})
+	for ci, c := range cases {
+		d := &c16Driver{ctx: ctx, target: target, idx: map[string]int{}, gid: c16Gid(), everHeld: map[int32]bool{}}
+		d.pid = c16Spawn(t, sys, ctx, fmt.Sprintf("req-%d", ci), func(rc *ReceiveContext) {
+			if m, ok := rc.Message().(*testpb.TestCount); ok {
+				if _, liveStash, _ := d.liveInTable(); liveStash > 0 {
+					d.complain("isolation", "ordinary message %d handled while %d uncompleted StashNonReentrant request(s) are in flight", m.GetValue(), liveStash)
+				}
+				d.handled = append(d.handled, m.GetValue())
+			}
+		}, WithReentrancy(reentrancy.New(reentrancy.WithMode(reentrancy.AllowAll), reentrancy.WithMaxInFlight(c.Max))),
+			WithPassivationStrategy(passivation.NewTimeBasedStrategy(time.Hour)))
+		if !c16Hijack(t, d.pid) {
+			t.Fatalf("case %d: could not take the requester's turn", ci)
+		}
+		out := c16CaseOut{Case: ci}
+		for i, op := range c.Ops {
+			d.step = i
+			nextIsFinish := op[0] == c16ODispatch && i+1 < len(c.Ops) && c.Ops[i+1][0] == c16OFinish
+			skip := d.apply(op, nextIsFinish)
+			if skip {
+				out.Obs = append(out.Obs, c16Obs{Skip: true})
+				continue
+			}
+			o := d.observe()
+			d.stepOracle(op, &o)
+			out.Obs = append(out.Obs, o)
+		}
+		// held messages must reach the handler in arrival order
+		var heldSeq []int32
+		for _, h := range d.handled {
+			if d.everHeld[h] {
+				heldSeq = append(heldSeq, h)
+			}
+		}
+		for i := 1; i < len(heldSeq); i++ {
+			if heldSeq[i] < heldSeq[i-1] {
+				d.complain("order", "held messages reached the handler in the order %v (arrival order is ascending)", heldSeq)
+				break
+			}
+		}
+		for h := range d.everHeld {
+			out.EverHeld = append(out.EverHeld, h)
+		}
+		sort.Slice(out.EverHeld, func(i, j int) bool { return out.EverHeld[i] < out.EverHeld[j] })
+		out.Complaints = d.complaints
+		w.put(out)
+		// give the turn back and retire the actor
+		for _, r := range d.reqs {
+			r.state.stopTimeoutIfSet()
+		}
+		for d.pid.mailbox.Dequeue() != nil {
+		}
+		d.pid.setState(stoppingState, false)
+		d.pid.schedState.reset()
+		_ = d.pid.Shutdown(ctx)
+	}
+}
+
+// ---------------------------------------------------------------------------------------------
+// Real goroutines: real dispatcher turns, real timers, Cancel from other goroutines, Shutdown while
+// requests are in flight. Only the property's oracle is evaluated here (no model).
+
+type c16StressOut struct {
+	Requesters, Messages, Requests, Replies, Timeouts, Cancels, ShutdownCancelled, Rejected, Continuations int64
+	Violations                                                                                       []string
+}
+
+type c16Viol struct {
+	mu sync.Mutex
+	v  []string
+}
+
+func (x *c16Viol) add(format string, a ...any) {
+	x.mu.Lock()
+	if len(x.v) < 10 {
+		x.v = append(x.v, fmt.Sprintf(format, a...))
+	}
+	x.mu.Unlock()
+}
+
+type c16SReq struct {
+	call      RequestCall
+	state     *requestState
+	calls     atomic.Int32
+	thenSet   atomic.Bool
+	stashMode bool
+}
+
+type c16SActor struct {
+	name     string
+	pid      *PID
+	limit    int
+	stashDef bool
+	rng      *verifRNG
+	viol     *c16Viol
+	owner    atomic.Uint64
+	depth    int // owner-goroutine only
+	blockOut int // owner-goroutine only: stash-mode requests whose continuation has not run yet
+	outst    int // owner-goroutine only: requests whose continuation has not run yet (upper bound of in flight)
+	deferred []*c16SReq
+	mu       sync.Mutex
+	reqs     []*c16SReq
+	handled  map[int32]int
+	stopping atomic.Bool
+	stats    *c16StressOut
+	targets  []*PID
+	cancelCh chan *c16SReq
+}
+
+func (a *c16SActor) enter(what string) {
+	g := c16Gid()
+	prev := a.owner.Swap(g)
+	if prev != 0 && prev != g {
+		a.viol.add("%s: %s ran on goroutine %d while goroutine %d was inside the actor's Receive/continuation", a.name, what, g, prev)
+	}
+	a.depth++
+}
+
+func (a *c16SActor) leave() {
+	a.depth--
+	if a.depth == 0 {
+		a.owner.Store(0)
+	}
+}
+
+func (a *c16SActor) continuation(r *c16SReq) func(any, error) {
+	return func(_ any, err error) {
+		a.enter("continuation")
+		defer a.leave()
+		if n := r.calls.Add(1); n > 1 {
+			a.viol.add("%s: continuation invoked %d times for one request", a.name, n)
+		}
+		if a.pid.schedState.Load() != dispatchProcessing {
+			a.viol.add("%s: continuation ran while the actor was not in its processing turn", a.name)
+		}
+		atomic.AddInt64(&a.stats.Continuations, 1)
+		switch {
+		case err == nil:
+			atomic.AddInt64(&a.stats.Replies, 1)
+		case errors.Is(err, gerrors.ErrRequestTimeout):
+			atomic.AddInt64(&a.stats.Timeouts, 1)
+		case errors.Is(err, gerrors.ErrRequestCanceled):
+			atomic.AddInt64(&a.stats.Cancels, 1)
+		}
+		a.outst--
+		if r.stashMode {
+			a.blockOut--
+		}
+	}
+}
+
+func (a *c16SActor) receive(rc *ReceiveContext) {
+	m, ok := rc.Message().(*testpb.TestCount)
+	if !ok {
+		return
+	}
+	a.enter("Receive")
+	defer a.leave()
+	if a.blockOut > 0 && !a.stopping.Load() {
+		a.viol.add("%s: ordinary message %d handled while %d StashNonReentrant request(s) are outstanding", a.name, m.GetValue(), a.blockOut)
+	}
+	a.mu.Lock()
+	a.handled[m.GetValue()]++
+	a.mu.Unlock()
+	// late Then on requests issued by an earlier message (may already be completed: runs here, synchronously)
+	for _, r := range a.deferred {
+		r.thenSet.Store(true)
+		r.call.Then(a.continuation(r))
+	}
+	a.deferred = a.deferred[:0]
+	if m.GetValue() < 0 {
+		return // flush message
+	}
+	n := 1 + a.rng.intn(2)
+	for i := 0; i < n; i++ {
+		stash := a.stashDef
+		opts := []RequestOption{}
+		switch a.rng.intn(4) {
+		case 0:
+			stash = true
+			opts = append(opts, WithReentrancyMode(reentrancy.StashNonReentrant))
+		case 1:
+			stash = false
+			opts = append(opts, WithReentrancyMode(reentrancy.AllowAll))
+		}
+		ti := a.rng.intn(len(a.targets))
+		if ti == 2 || a.rng.intn(3) == 0 { // the silent target always gets a timeout
+			opts = append(opts, WithRequestTimeout(time.Duration(200+a.rng.intn(2500))*time.Microsecond))
+		}
+		before := a.outst
+		call := rc.Request(a.targets[ti], &testpb.TestCount{Value: m.GetValue()}, opts...)
+		if call == nil {
+			atomic.AddInt64(&a.stats.Rejected, 1)
+			err := rc.getError()
+			if errors.Is(err, gerrors.ErrReentrancyInFlightLimit) {
+				if a.limit <= 0 || before < a.limit {
+					a.viol.add("%s: Request rejected with the in-flight limit %d although at most %d requests can be in flight (counter drift)", a.name, a.limit, before)
+				}
+			} else if !a.stopping.Load() {
+				a.viol.add("%s: Request failed unexpectedly: %v", a.name, err)
+			}
+			continue
+		}
+		atomic.AddInt64(&a.stats.Requests, 1)
+		r := &c16SReq{call: call, state: call.(*requestHandle).state, stashMode: stash}
+		a.mu.Lock()
+		a.reqs = append(a.reqs, r)
+		a.mu.Unlock()
+		a.outst++
+		re := a.pid.reentrancy.Load()
+		if a.limit > 0 && !a.stopping.Load() {
+			if l := re.requestStates.Len(); l > a.limit {
+				a.viol.add("%s: %d requests in flight, limit %d", a.name, l, a.limit)
+			}
+		}
+		if stash {
+			a.blockOut++
+			r.thenSet.Store(true)
+			call.Then(a.continuation(r))
+		} else if a.rng.intn(4) == 0 {
+			a.deferred = append(a.deferred, r)
+		} else {
+			r.thenSet.Store(true)
+			call.Then(a.continuation(r))
+		}
+		switch a.rng.intn(8) {
+		case 0:
+			_ = call.Cancel() // on the turn
+		case 1:
+			select {
+			case a.cancelCh <- r: // from another goroutine, a little later
+			default:
+			}
+		}
+	}
+}
+
+func TestVerifC16Stress(t *testing.T) {
+	w := newVerifWriter(t, "c16_stress_out.jsonl")
+	defer w.close()
+	seed := verifSeed()
+	thorough := os.Getenv("VERIF_TIER") == "thorough"
+	nReq, nMsg, rounds := 6, 250, 2
+	if thorough {
+		nReq, nMsg, rounds = 8, 1500, 6
+	}
+	for round := 0; round < rounds; round++ {
+		out := c16StressRound(t, seed*1000+uint64(round), nReq, nMsg, round)
+		w.put(out)
+	}
+}
+
+func c16StressRound(t *testing.T, seed uint64, nReq, nMsg, round int) c16StressOut {
+	rng := newVerifRNG(seed)
+	out := c16StressOut{}
+	viol := &c16Viol{}
+	procs := []int{0, 2, 4, 1}[round%4]
+	if procs > 0 {
+		defer runtime.GOMAXPROCS(runtime.GOMAXPROCS(procs))
+	}
+	sys, ctx := c16System(t, fmt.Sprintf("c16-stress-%d", round))
+	defer func() { _ = sys.Stop(ctx) }()
+	tr := newVerifRNG(seed + 7)
+	var trMu sync.Mutex
+	targets := []*PID{
+		c16Spawn(t, sys, ctx, "fast", func(rc *ReceiveContext) {
+			if _, ok := rc.Message().(*testpb.TestCount); ok {
+				rc.Response(&testpb.Reply{Content: "ok"})
+			}
+		}),
+		c16Spawn(t, sys, ctx, "slow", func(rc *ReceiveContext) {
+			if _, ok := rc.Message().(*testpb.TestCount); ok {
+				trMu.Lock()
+				d := tr.intn(1500)
+				trMu.Unlock()
+				time.Sleep(time.Duration(d) * time.Microsecond)
+				rc.Response(&testpb.Reply{Content: "ok"})
+			}
+		}),
+		c16Spawn(t, sys, ctx, "silent", func(*ReceiveContext) {}),
+	}
+	cancelCh := make(chan *c16SReq, 1024)
+	cancelDone := make(chan struct{})
+	go func() {
+		defer close(cancelDone)
+		for r := range cancelCh {
+			runtime.Gosched()
+			_ = r.call.Cancel()
+		}
+	}()
+	nStop := 2
+	actors := make([]*c16SActor, 0, nReq+nStop)
+	for i := 0; i < nReq+nStop; i++ {
+		a := &c16SActor{name: fmt.Sprintf("r%d", i), limit: []int{0, 2, 4, 1}[i%4], stashDef: i%2 == 1, rng: newVerifRNG(seed*31 + uint64(i)),
+			viol: viol, handled: map[int32]int{}, stats: &out, targets: targets, cancelCh: cancelCh}
+		mode := reentrancy.AllowAll
+		if a.stashDef {
+			mode = reentrancy.StashNonReentrant
+		}
+		a.pid = c16Spawn(t, sys, ctx, a.name, a.receive, WithReentrancy(reentrancy.New(reentrancy.WithMode(mode), reentrancy.WithMaxInFlight(a.limit))))
+		actors = append(actors, a)
+	}
+	out.Requesters = int64(len(actors))
+	var wg sync.WaitGroup
+	for i, a := range actors {
+		wg.Add(1)
+		go func(i int, a *c16SActor) {
+			defer wg.Done()
+			r := newVerifRNG(seed*97 + uint64(i))
+			stopAt := -1
+			if i >= nReq {
+				stopAt = nMsg/3 + r.intn(nMsg/3)
+			}
+			for n := 0; n < nMsg; n++ {
+				if n == stopAt {
+					a.stopping.Store(true)
+					_ = a.pid.Shutdown(ctx)
+					return
+				}
+				if err := Tell(ctx, a.pid, &testpb.TestCount{Value: int32(n)}); err != nil {
+					viol.add("%s: Tell failed: %v", a.name, err)
+					return
+				}
+				atomic.AddInt64(&out.Messages, 1)
+				switch r.intn(6) {
+				case 0:
+					time.Sleep(time.Duration(r.intn(300)) * time.Microsecond)
+				case 1:
+					runtime.Gosched()
+				}
+			}
+		}(i, a)
+	}
+	wg.Wait()
+	// quiescence of the actors that keep running: cancel what can never be answered, flush the late Thens
+	deadline := time.Now().Add(20 * time.Second)
+	for _, a := range actors[:nReq] {
+		for {
+			a.mu.Lock()
+			reqs := append([]*c16SReq(nil), a.reqs...)
+			a.mu.Unlock()
+			pending := 0
+			for _, r := range reqs {
+				r.state.mu.Lock()
+				c := r.state.completed
+				r.state.mu.Unlock()
+				if !c {
+					pending++
+					_ = r.call.Cancel()
+				}
+			}
+			idle := a.pid.mailbox.IsEmpty() && a.pid.schedState.Load() == dispatchIdle
+			a.mu.Lock()
+			nh := len(a.handled)
+			a.mu.Unlock()
+			if pending == 0 && idle && nh >= nMsg {
+				break
+			}
+			if time.Now().After(deadline) {
+				viol.add("%s: no quiescence: %d requests never completed, %d of %d messages handled, mailbox empty=%v stash=%d blockingCount=%d",
+					a.name, pending, nh, nMsg, a.pid.mailbox.IsEmpty(), a.pid.StashSize(), a.pid.reentrancy.Load().blockingCount.Load())
+				break
+			}
+			time.Sleep(500 * time.Microsecond)
+		}
+		_ = Tell(ctx, a.pid, &testpb.TestCount{Value: -1}) // flush: registers the late Thens
+		c16WaitFor(t, a.name+" flush", func() bool {
+			a.mu.Lock()
+			defer a.mu.Unlock()
+			return a.handled[-1] == 1
+		})
+		c16WaitFor(t, a.name+" idle", func() bool { return a.pid.mailbox.IsEmpty() && a.pid.schedState.Load() == dispatchIdle })
+		re := a.pid.reentrancy.Load()
+		if i, b, l := re.inFlightCount.Load(), re.blockingCount.Load(), re.requestStates.Len(); i != 0 || b != 0 || l != 0 {
+			viol.add("%s: at quiescence inFlightCount=%d blockingCount=%d len(requestStates)=%d", a.name, i, b, l)
+		}
+		if s := a.pid.StashSize(); s != 0 {
+			viol.add("%s: at quiescence %d messages are still held in the stash", a.name, s)
+		}
+		a.mu.Lock()
+		for n := 0; n < nMsg; n++ {
+			if a.handled[int32(n)] != 1 {
+				viol.add("%s: ordinary message %d handled %d times", a.name, n, a.handled[int32(n)])
+				break
+			}
+		}
+		for k, r := range a.reqs {
+			if c := r.calls.Load(); r.thenSet.Load() && c != 1 {
+				viol.add("%s: request #%d completed=%v but its continuation ran %d times", a.name, k, r.state.completed, c)
+				break
+			}
+		}
+		a.mu.Unlock()
+	}
+	// the stopped actors: every request they issued is completed, at most one continuation call each, counters zero
+	for _, a := range actors[nReq:] {
+		c16WaitFor(t, a.name+" stopped", func() bool { return !a.pid.IsRunning() && a.pid.schedState.Load() != dispatchProcessing })
+		time.Sleep(2 * time.Millisecond)
+		re := a.pid.reentrancy.Load()
+		if i, b, l := re.inFlightCount.Load(), re.blockingCount.Load(), re.requestStates.Len(); i != 0 || b != 0 || l != 0 {
+			viol.add("%s: after Shutdown inFlightCount=%d blockingCount=%d len(requestStates)=%d", a.name, i, b, l)
+		}
+		a.mu.Lock()
+		for k, r := range a.reqs {
+			r.state.mu.Lock()
+			c, e := r.state.completed, r.state.err
+			r.state.mu.Unlock()
+			if !c {
+				viol.add("%s: request #%d was never completed by Shutdown", a.name, k)
+				break
+			}
+			if r.calls.Load() == 0 && errors.Is(e, gerrors.ErrRequestCanceled) {
+				atomic.AddInt64(&out.ShutdownCancelled, 1)
+			}
+			if r.calls.Load() > 1 {
+				viol.add("%s: continuation of request #%d ran %d times", a.name, k, r.calls.Load())
+				break
+			}
+		}
+		a.mu.Unlock()
+	}
+	close(cancelCh)
+	<-cancelDone
+	out.Violations = viol.v
+	return out
+}
+
+// ---------------------------------------------------------------------------------------------
+// Admission under contention: registerRequestState from many goroutines must never admit more than
+// maxInFlight requests, and exactly maxInFlight when enough callers compete.
+type c16RaceOut struct {
+	Rounds, Goroutines int
+	Violations         []string
+}
+
+func TestVerifC16RegisterRace(t *testing.T) {
+	w := newVerifWriter(t, "c16_race_out.jsonl")
+	defer w.close()
+	rounds, g := 400, 8
+	if os.Getenv("VERIF_TIER") == "thorough" {
+		rounds = 4000
+	}
+	out := c16RaceOut{Rounds: rounds, Goroutines: g}
+	for round := 0; round < rounds && len(out.Violations) < 3; round++ {
+		limit := 1 + round%3
+		pid := &PID{logger: log.DiscardLogger}
+		pid.reentrancy.Store(newReentrancyState(reentrancy.AllowAll, limit))
+		var start sync.WaitGroup
+		var done sync.WaitGroup
+		var admitted atomic.Int32
+		var maxSeen atomic.Int64
+		start.Add(1)
+		states := make([][]*requestState, g)
+		for i := 0; i < g; i++ {
+			done.Add(1)
+			go func(i int) {
+				defer done.Done()
+				start.Wait()
+				for k := 0; k < 3; k++ {
+					st := newRequestState(fmt.Sprintf("r%d-%d-%d", round, i, k), reentrancy.AllowAll, pid)
+					if err := pid.registerRequestState(st); err == nil {
+						admitted.Add(1)
+						states[i] = append(states[i], st)
+						if v := pid.reentrancy.Load().inFlightCount.Load(); v > maxSeen.Load() {
+							maxSeen.Store(v)
+						}
+					} else if !errors.Is(err, gerrors.ErrReentrancyInFlightLimit) {
+						admitted.Add(1000)
+					}
+				}
+			}(i)
+		}
+		start.Done()
+		done.Wait()
+		re := pid.reentrancy.Load()
+		if a := int(admitted.Load()); a != limit || re.requestStates.Len() != limit || re.inFlightCount.Load() != int64(limit) {
+			out.Violations = append(out.Violations, fmt.Sprintf("round %d: limit %d, %d goroutines x 3 registrations: admitted=%d len(requestStates)=%d inFlightCount=%d",
+				round, limit, g, a, re.requestStates.Len(), re.inFlightCount.Load()))
+		}
+		for _, ss := range states {
+			for _, st := range ss {
+				pid.deregisterRequestState(st)
+			}
+		}
+		if re.requestStates.Len() != 0 || re.inFlightCount.Load() != 0 {
+			out.Violations = append(out.Violations, fmt.Sprintf("round %d: after deregistering everything len(requestStates)=%d inFlightCount=%d", round, re.requestStates.Len(), re.inFlightCount.Load()))
+		}
+	}
 	w.put(out)
 }
